@@ -178,6 +178,31 @@ fn c09_obscured() -> R {
     let r2 = e.elide_revealing_set(&to_set(&keep));
     ensure!(dg(&r2) == dg(&e), "digest changed by elision", "");
     check_signers(&r2, &keys, &signers, 0, &[3])?;
+    // a 'signed' assertion hidden in place and put back (replace by an element of the same digest, both ways)
+    op("replace_assertion ('signed' assertion by its obscured form and back)");
+    {
+        let sas = e.assertions_with_predicate(known_values::SIGNED);
+        let sa = &sas[choice(sas.len())];
+        let hidden_form = match how { 0 => sa.elide(), _ => must!(sa.compress(), "compress failed") };
+        let hidden = must!(e.replace_assertion(sa.clone(), hidden_form.clone()), "replace refused");
+        ensure!(dg(&hidden) == dg(&e) && hidden.assertions().len() == e.assertions().len(), "hiding a 'signed' assertion in place changed the envelope's digest or assertion count", "");
+        let back = must!(hidden.replace_assertion(hidden_form, sa.clone()), "replace refused");
+        ensure!(bytes(&back) == bytes(&e), "putting a hidden 'signed' assertion back does not restore the envelope", "");
+        check_signers(&back, &keys, &signers, 0, &[7])?;
+    }
+    // sign() = wrap + signature on the wrapper: revealing only the wrapper (not its content) and the signatures
+    op("sign + elide_revealing_set (wrapper and signatures only) + verify");
+    {
+        let sg = base.sign(&keys[0].0);
+        let mut keep: Vec<D> = vec![dg(&sg), dg(&sg.subject())];
+        for a in sg.assertions() { for x in positions(&a) { keep.push(x.d); } }
+        let red = sg.elide_revealing_set(&to_set(&keep));
+        ensure!(dg(&red) == dg(&sg), "digest changed by elision", "");
+        ensure!(must!(red.has_signature_from(&keys[0].1), "has_signature_from failed"), "signature no longer verifies after its wrapper's content was elided", "");
+        let v = must!(red.verify(&keys[0].1), "verify failed on a signed envelope whose wrapper's content is elided");
+        ensure!(dg(&v) == dg(&base), "verify returned something with another digest than the signed content", "");
+        ensure!(red.verify(&keys[2].1).is_err(), "verify succeeded under a key that did not sign", "");
+    }
     Ok(())
 }
 
@@ -261,8 +286,10 @@ fn c09_adversarial() -> R {
 
 fn c10_recipients() -> R {
     let subs = vec![l(1), w(n(l(1), vec![a(l(2), l(3))])), n(k(1001), vec![a(l(2), l(3))]), n(n(l(1), vec![a(l(2), l(3))]), vec![a(l(4), l(5))])];
-    let s = &subs[choice(subs.len())];
-    let e = build(s);
+    let si = choice(subs.len() + 2);
+    let s = &subs[si.min(subs.len() - 1)];
+    // (two further subjects outside the shape language: a leaf holding the tagged CBOR of an envelope; an assertion with both sides elided)
+    let e = if si == subs.len() { Envelope::new(Envelope::new(leaf_text(1)).add_assertion(leaf_text(2), leaf_text(3)).to_cbor()) } else if si == subs.len() + 1 { build(&a(el(l(2)), el(l(3)))) } else { build(s) };
     let before = bytes(&e);
     // four key pairs: X25519 x3 (idx 0..2), ML-KEM-512 x1 (idx 3); lists with duplicates
     let pool: Vec<(EncapsulationPrivateKey, EncapsulationPublicKey)> = vec![enckey(0, 0), enckey(0, 1), enckey(0, 2), enckey(1, 0)];
@@ -368,8 +395,11 @@ fn c10_wrap_and_seal() -> R {
     let mut subs = subjects();
     subs.push(w(l(1)));
     subs.push(w(w(n(l(1), vec![a(l(2), l(3))]))));
+    subs.push(n(l(1), vec![a(el(l(2)), el(l(3))), a(l(4), l(5))]));
     let s = &subs[choice(subs.len())];
     let e = build(s);
+    // a leaf that holds the tagged CBOR of another envelope, as an assertion's object
+    let e = if flag() { e.add_assertion(leaf_text(470), Envelope::new(leaf_text(471)).to_cbor()) } else { e };
     // the same envelope reached by offering one of its assertions again in obscured form (present is decided by digest)
     let e = { let asr = e.assertions(); if !asr.is_empty() && flag() { let i = choice(asr.len()); let again = if flag() { asr[i].elide() } else { must!(asr[i].compress(), "compress failed") }; must!(e.add_assertion_envelope(again), "add refused") } else { e } };
     let before = bytes(&e);
@@ -410,7 +440,7 @@ pub fn prop_c09() -> Prop {
                 bounds: "4 subjects (leaf, known value, wrapped node, node whose subject is a node) x every signer subset of 3 Ed25519 keys x metadata on signer 0 or none x other assertion added before / after signing x every non-empty key list, every threshold 1..n+1 and None x every digest order (which 'signed' assertion comes first is the hash's choice); different subject; sign/verify(_returning_metadata). Keys are concrete (VERIF_SEED)",
                 api: &["add_signature_opt", "has_signature_from", "verify_signature_from", "verify_signature_from_returning_metadata", "has_signatures_from_threshold", "verify_signatures_from_threshold", "has_signatures_from", "sign", "verify", "verify_returning_metadata", "replace_subject"] },
             Scenario { name: "obscured", f: c09_obscured, thorough_only: false,
-                bounds: "5 subjects (also node with 2 assertions, assertion) signed by 2 of 3 keys (one with metadata) + one other assertion x any single part outside the signature assertions obscured by any of 3 actions x every digest order; reveal-only-signatures form",
+                bounds: "5 subjects (also node with 2 assertions, assertion) signed by 2 of 3 keys (one with metadata) + one other assertion x any single part outside the signature assertions obscured by any of 3 actions x every digest order; reveal-only-signatures form; a 'signed' assertion replaced by its obscured form and back; sign() + revealing only wrapper and signatures + verify",
                 api: &["elide_removing_target_with_action", "elide_revealing_set", "has_signature_from", "has_signatures_from_threshold"] },
             Scenario { name: "schemes", f: c09_schemes, thorough_only: false,
                 bounds: "each of Ed25519, Schnorr, ECDSA, ML-DSA-44, SSH-Ed25519 x every signer subset of 3 keys (metadata on signer 1) x thresholds x direct and after encode->decode x every digest order",
@@ -428,13 +458,13 @@ pub fn prop_c10() -> Prop {
         id: "C10",
         scenarios: vec![
             Scenario { name: "recipients", f: c10_recipients, thorough_only: false,
-                bounds: "4 subjects (leaf, wrapped node, node with one assertion, node whose subject is a node) x every recipient list of length 1..3 over 4 key pairs (3 X25519, 1 ML-KEM-512; duplicates allowed) x {encrypt_subject_to_recipients, encrypt_subject + add_recipient one at a time, the same interleaved with other assertions (lists of <=2 on a bare subject)} x each of the 4 private keys (listed and unlisted) x every digest order (which hasRecipient assertion is tried first is the hash's choice)",
+                bounds: "6 subjects (leaf, wrapped node, node with one assertion, node whose subject is a node, leaf holding the tagged CBOR of an envelope, assertion with both sides elided) x every recipient list of length 1..3 over 4 key pairs (3 X25519, 1 ML-KEM-512; duplicates allowed) x {encrypt_subject_to_recipients, encrypt_subject + add_recipient one at a time, the same interleaved with other assertions (lists of <=2 on a bare subject)} x each of the 4 private keys (listed and unlisted) x every digest order (which hasRecipient assertion is tried first is the hash's choice)",
                 api: &["encrypt_subject_to_recipients", "add_recipient", "recipients", "decrypt_subject_to_recipient", "encrypt_subject", "decrypt_subject"] },
             Scenario { name: "redacted", f: c10_redacted, thorough_only: false,
                 bounds: "2 subjects x every recipient list of length 2..3 over 3 key pairs (2 X25519, 1 ML-KEM-512; duplicates allowed) added one at a time x any one entry's sealed message obscured in place by elide / encrypt / compress x with / without a stale hasRecipient entry with an elided object x each of the 3 private keys x every digest order",
                 api: &["add_recipient", "elide_removing_target_with_action", "recipients", "decrypt_subject_to_recipient"] },
             Scenario { name: "wrap_and_seal", f: c10_wrap_and_seal, thorough_only: false,
-                bounds: "7 envelopes (incl. bare wrapped and doubly wrapped ones; as built or after one of their assertions was offered again in elided / compressed form) x {X25519, ML-KEM-512} x {encrypt_to_recipient/decrypt_to_recipient, seal_opt/unseal over sender schemes Ed25519 / Schnorr / ECDSA / SSH-Ed25519 with its signing options (+ ML-DSA-44 thorough)} x right key, wrong key of the same scheme, key of the other scheme, wrong sender x every digest order",
+                bounds: "8 envelopes (incl. bare wrapped and doubly wrapped ones, one holding an assertion with both sides elided; with / without an object leaf holding the tagged CBOR of an envelope; as built or after one of their assertions was offered again in elided / compressed form) x {X25519, ML-KEM-512} x {encrypt_to_recipient/decrypt_to_recipient, seal_opt/unseal over sender schemes Ed25519 / Schnorr / ECDSA / SSH-Ed25519 with its signing options (+ ML-DSA-44 thorough)} x right key, wrong key of the same scheme, key of the other scheme, wrong sender x every digest order",
                 api: &["encrypt_to_recipient", "decrypt_to_recipient", "seal_opt", "unseal"] },
         ],
         assumptions: { let mut v = COMMON_ASSUMPTIONS.to_vec(); v.push("KEM / AEAD internals are executed natively with concrete keys (VERIF_SEED), not solver-decided"); v },
